@@ -534,9 +534,16 @@ def stat_classes(st_):
 
 
 # ------------------------------------------------------------------------------------------ oracle: valid programs
+def excluded(ctx, kind, name, n=1):
+    """exclusion classes are counted as events (evidence histogram, top 80 only) and, complete, as numbers in the coverage"""
+    ctx.event(kind + ":" + name, n)
+    key = "excluded_%s_%s" % (kind, name)
+    ctx.extra[key] = ctx.extra.get(key, 0) + n
+
+
 def count_meta(case, ctx):
     for k, v in (case.get("avoided") or {}).items():
-        ctx.event("avoided:" + k, v)
+        excluded(ctx, "avoided", k, v)
 
 
 def check_valid(case, ctx):
@@ -544,7 +551,7 @@ def check_valid(case, ctx):
     count_meta(case, ctx)
     r = br.run_program(lines)
     if r.status == "undefined":
-        ctx.event("undef:" + r.undefined)
+        excluded(ctx, "undef", r.undefined)
         raise Discard("reference_undefined")
     if r.status == "error":
         ctx.event("generator_error:" + r.error[0].split(" ")[0])
@@ -724,6 +731,8 @@ def check_malformed(case, ctx):
     E = engine(ctx)
     text = host_punch(lines)
     cls = ["leg:malformed", "mutation:" + case.get("mutation", "?"), "reference:" + r.status]
+    if "drop_line_number_excluded" in case.get("mutation", ""):
+        excluded(ctx, "avoided", "unnumbered_line_with_division_read_or_loop")
     judged = r.status in ("ok", "error")
     # a mutated program may loop for ever; where the reference gives no verdict the wait is short
     res = E.run(text, timeout=TIMEOUT_S if judged else 10.0)
@@ -745,7 +754,7 @@ def check_malformed(case, ctx):
         return {"nontrivial": False, "classes": cls + ["verdict:timeout_not_judged"]}
     rc, err = res["rc"], res.get("errors") or ""
     if r.status == "undefined":
-        ctx.event("undef:" + r.undefined)
+        excluded(ctx, "undef", r.undefined)
         # the documentation does not say what this text means: only "no crash, no hang" is asserted
         if rc != 0 and not mentions_basic(err):
             ctx.event("malformed:undefined_error_without_BASIC")
